@@ -425,6 +425,18 @@ theorem C03_marked_failed_excluded (repo : Repo) (hu : uniqueIds repo) (before a
     ⟨hok, hbad, fun _ h => h, fun r hr hnot => absurd (hin0 r hr) hnot, hin0, fun d hd => Or.inl hd⟩
   exact (excl_run _ e after _ h0 hw2 hno).log
 
+/-- The history of seed C03-f, on the model: request 1 is held by endpoint 0; a health check passes endpoint 0 meanwhile;
+    then the held attempt fails at connection level and request 1 fails over to endpoint 1.  The failure is the newer
+    fact: endpoint 0 is offline afterwards and request 2, which arrives later, sends it nothing — an instance of
+    `C03_marked_failed_excluded` with `before` = everything up to the failed attempt. -/
+theorem C03_failure_after_a_passing_check_example :
+    let repo : Repo := [⟨0, 300, "healthy", 0⟩, ⟨1, 200, "healthy", 0⟩]
+    let history : List Op := [.arrive 1 (fun _ => true), .healthResult 0 "healthy", .healthResult 1 "healthy",
+      .attempt 1 (fun l => l.head?) (.failBefore true), .attempt 1 (fun l => l.head?) (.ok ⟨200, [], []⟩),
+      .arrive 2 (fun _ => true), .attempt 2 (fun l => l.head?) (.ok ⟨200, [], []⟩)]
+    ((run .copy (init repo) history).log.map (fun d => (d.rid, d.target))) = [(1, 0), (1, 1), (2, 1)] ∧
+    statusOf (run .copy (init repo) history).repo 0 = some "offline" := by decide
+
 /-! ### "Every load balancer returns a member of the list it was given or an error" -/
 
 /-- Re-export of `Olla.Props.C06.selectors_member`. -/
